@@ -332,3 +332,486 @@ Proof.
     destruct K as [A [ps [E S]]]. unfold pairs_ok in S. apply andb_true_iff in S. destruct S as [_ S].
     split; [exact A|]. split; [exact B|]. exists ps. auto.
 Qed.
+
+Lemma dense_scale_body : forall sc c,
+    CoeffTree c ->
+    ((if negb (all_numeric sc) then OtherErr else
+      if negb (struct_eqb sc c) then TypeErr else
+      match prefix_pairs sc (float_like c) with
+      | None => ValueErr
+      | Some ps => if pairs_shapes_equal ps then Accept else if is_leaf sc then ValueErr else OtherErr
+      end) = Accept <-> SameShape sc c).
+Proof.
+  intros sc c Hc. rewrite <- (tree_scale_checks sc c Hc).
+  destruct (all_numeric sc); simpl; [|split; [discriminate | intros [K _]; discriminate]].
+  destruct (struct_eqb sc c); simpl; [|split; [discriminate | intros [_ [K _]]; discriminate]].
+  destruct (prefix_pairs sc (float_like c)) as [ps|]; [|split; [discriminate | intros [_ [_ [ps [K _]]]]; discriminate]].
+  destruct (pairs_shapes_equal ps) eqn:E.
+  - split; [intros _; repeat split; exists ps; auto | reflexivity].
+  - split.
+    + destruct (is_leaf sc); discriminate.
+    + intros [_ [_ [ps' [K1 K2]]]]. inversion K1; subst. congruence.
+Qed.
+
+Lemma blockdiag_scale_body : forall sc c,
+    CoeffTree c ->
+    ((if negb (struct_eqb sc c) then TypeErr else
+      if negb (all_numeric sc) then OtherErr else
+      match prefix_pairs sc (float_like c) with
+      | None => ValueErr
+      | Some ps => if pairs_shapes_equal ps then Accept else if is_leaf sc then ValueErr else OtherErr
+      end) = Accept <-> SameShape sc c).
+Proof.
+  intros sc c Hc. rewrite <- (tree_scale_checks sc c Hc).
+  destruct (struct_eqb sc c); simpl; [|split; [discriminate | intros [_ [K _]]; discriminate]].
+  destruct (all_numeric sc); simpl; [|split; [discriminate | intros [K _]; discriminate]].
+  destruct (prefix_pairs sc (float_like c)) as [ps|]; [|split; [discriminate | intros [_ [_ [ps [K _]]]]; discriminate]].
+  destruct (pairs_shapes_equal ps) eqn:E.
+  - split; [intros _; repeat split; exists ps; auto | reflexivity].
+  - split.
+    + destruct (is_leaf sc); discriminate.
+    + intros [_ [_ [ps' [K1 K2]]]]. inversion K1; subst. congruence.
+Qed.
+
+(* T (all inputs): with a well-formed coefficient container, the base-scale checks of the
+   three factorisations accept exactly the well-formed base scales. *)
+Theorem base_scale_reflects : forall f mean sc,
+    WfTcoeffs mean -> (base_scale f mean sc = Accept <-> WfBaseScale f mean sc).
+Proof.
+  intros f mean sc Hw.
+  destruct (wf_tcoeffs_first mean Hw) as [c [cs [Ec [Ef Hc]]]].
+  assert (Hn : all_numeric c = true) by (apply coefftree_regular_numeric; exact Hc).
+  unfold WfBaseScale. rewrite Ec.
+  destruct f.
+  - unfold base_scale, base_scale_dense. rewrite Ef, Hn. change (negb true) with false. cbv beta iota.
+    destruct sc; cbv beta iota;
+      try (rewrite (dense_scale_body _ c Hc); split; [intros K; right; exact K | intros [K|K]; [discriminate | exact K]]).
+    split; [intros _; left; reflexivity | reflexivity].
+  - unfold base_scale, base_scale_iso. rewrite Ef, Hn.
+    destruct sc as [s dt| | | | | | | | | | | | |]; simpl;
+      try (split; [intros _; left; reflexivity | reflexivity]);
+      try (split; [intros _; right; split; [exact I | reflexivity] | reflexivity]);
+      try (split; [discriminate | intros [K|[K _]]; [discriminate | contradiction]]).
+    destruct s as [|n s]; simpl.
+    + split; [intros _; right; split; [exact I | reflexivity] | reflexivity].
+    + split; [discriminate | intros [K|[_ K]]; discriminate].
+  - unfold base_scale, base_scale_blockdiag. rewrite Ef, Hn. change (negb true) with false. cbv beta iota.
+    destruct sc; cbv beta iota;
+      try (rewrite (blockdiag_scale_body _ c Hc); split; [intros K; right; exact K | intros [K|K]; [discriminate | exact K]]).
+    split; [intros _; left; reflexivity | reflexivity].
+Qed.
+
+(* consequence for the constructors (all inputs): an accepted argument set has a well-formed
+   coefficient container AND a well-formed base scale *)
+Theorem prior_iwp_accepts_only_wellformed_coefficients_and_scales :
+  forall f tc ie sc, Regular tc -> prior_iwp f tc ie sc = Accept ->
+    WfTcoeffs tc /\ WfBaseScale f tc sc.
+Proof.
+  intros f tc ie sc Hr H.
+  pose proof (prior_iwp_accepts_only_wellformed_coefficients f tc ie sc Hr H) as Hw.
+  split; [exact Hw|].
+  unfold prior_iwp in H.
+  pose proof (tcoeffs_std_never_errs_with_accept f tc ie) as Hne.
+  destruct (tcoeffs_std f tc ie) as [std|e]; [|subst; congruence].
+  unfold prior_iwp_diffuse in H.
+  destruct (from_mean_and_std f tc std); try discriminate.
+  apply (base_scale_reflects f tc sc Hw). exact H.
+Qed.
+
+Theorem prior_iwp_diffuse_accepts_only_wellformed_coefficients_and_scales :
+  forall f mean std sc, Regular mean -> prior_iwp_diffuse f mean std sc = Accept ->
+    WfTcoeffs mean /\ WfBaseScale f mean sc.
+Proof.
+  intros f mean std sc Hr H.
+  pose proof (prior_iwp_diffuse_accepts_only_wellformed_coefficients f mean std sc Hr H) as Hw.
+  split; [exact Hw|].
+  unfold prior_iwp_diffuse in H.
+  destruct (from_mean_and_std f mean std); try discriminate.
+  apply (base_scale_reflects f mean sc Hw). exact H.
+Qed.
+
+(* ------------------------------------------------------- exactness flags *)
+Definition flag_pair_ok (ab : aval * aval) : bool :=
+  match snd ab with
+  | AArr s _ =>
+      (shape_eqb (leaf_shape (fst ab)) [] || shape_eqb (leaf_shape (fst ab)) s)
+      && match leaf_dtype (fst ab) with Some DBool => true | _ => false end
+  | _ => false
+  end.
+
+Lemma dense_flag_stages : forall ps bs ds,
+    mapM (fun ab : aval * aval =>
+            let (a, b) := ab in
+            match np_shape b with
+            | Some sb => Ok (shape_eqb (leaf_shape a) [] || shape_eqb (leaf_shape a) sb)
+            | None => Err OtherErr
+            end) ps = Ok bs ->
+    forallb (fun b => b) bs = true ->
+    mapM (fun ab : aval * aval =>
+            let (a, b) := ab in
+            match b, leaf_dtype a with
+            | AArr _ _, Some d => Ok d
+            | _, _ => Err OtherErr
+            end) ps = Ok ds ->
+    forallb is_bool_dtype ds = true ->
+    forallb flag_pair_ok ps = true.
+Proof.
+  induction ps as [|[a b] ps IH]; intros bs ds H1 H2 H3 H4; [reflexivity|].
+  simpl in H1, H3.
+  destruct b as [s dt| | | | | | | | | | | | |]; try discriminate.
+  simpl in H1.
+  destruct (mapM _ ps) as [bs'|] eqn:E1 in H1; [|discriminate]. inversion H1; subst. clear H1.
+  destruct (leaf_dtype a) as [d|] eqn:Ed; [|discriminate].
+  destruct (mapM _ ps) as [ds'|] eqn:E3 in H3; [|discriminate]. inversion H3; subst. clear H3.
+  simpl in H2, H4. apply andb_true_iff in H2. destruct H2 as [H2a H2b].
+  apply andb_true_iff in H4. destruct H4 as [H4a H4b].
+  simpl. unfold flag_pair_ok at 1. simpl. rewrite H2a, Ed.
+  destruct d; simpl in H4a; try discriminate. simpl.
+  exact (IH bs' ds' E1 H2b E3 H4b).
+Qed.
+
+Lemma mapM_err : forall (A B : Type) (f : A -> res B) (l : list A) (e : verdict),
+    mapM f l = Err e -> exists x, In x l /\ f x = Err e.
+Proof.
+  intros A B f. induction l as [|x l IH]; intros e H; simpl in H; [discriminate|].
+  destruct (f x) as [y|e'] eqn:Ex.
+  - destruct (mapM f l) as [ys|e''] eqn:El; [discriminate|]. inversion H; subst.
+    destruct (IH e eq_refl) as [x' [I1 I2]]. exists x'. split; [right; exact I1 | exact I2].
+  - inversion H; subst. exists x. split; [left; reflexivity | exact Ex].
+Qed.
+
+Lemma flags_tree_dense_accept : forall ie mean,
+    flags_tree_dense ie mean = Accept ->
+    exists ps, prefix_pairs ie mean = Some ps /\ forallb flag_pair_ok ps = true.
+Proof.
+  intros ie mean H. unfold flags_tree_dense in H.
+  destruct (prefix_pairs ie mean) as [ps|]; [|discriminate].
+  exists ps. split; [reflexivity|].
+  match type of H with (match ?m with _ => _ end) = _ => destruct m as [bs|e] eqn:E1 end.
+  - destruct (forallb (fun b => b) bs) eqn:E2; simpl in H; [|discriminate].
+    match type of H with (match ?m with _ => _ end) = _ => destruct m as [ds|e] eqn:E3 end.
+    + destruct (forallb is_bool_dtype ds) eqn:E4; [|discriminate].
+      exact (dense_flag_stages ps bs ds E1 E2 E3 E4).
+    + subst e. apply mapM_err in E3. destruct E3 as [[a b] [_ K]].
+      destruct b; try discriminate; destruct (leaf_dtype a); discriminate.
+  - subst e. apply mapM_err in E1. destruct E1 as [[a b] [_ K]].
+    destruct (np_shape b); discriminate.
+Qed.
+
+Lemma FlagsFor_list : forall xs ys, FlagsFor (AList xs) (AList ys) <-> Forall2 FlagsFor xs ys.
+Proof.
+  induction xs as [|x xs IH]; intros [|y ys]; simpl.
+  - split; auto.
+  - split; [tauto | intros K; inversion K].
+  - split; [tauto | intros K; inversion K].
+  - specialize (IH ys). simpl in IH. rewrite IH.
+    split; [intros [A B]; constructor; auto | intros K; inversion K; auto].
+Qed.
+
+Lemma FlagsFor_tuple : forall xs ys, FlagsFor (ATuple xs) (ATuple ys) <-> Forall2 FlagsFor xs ys.
+Proof.
+  induction xs as [|x xs IH]; intros [|y ys]; simpl.
+  - split; auto.
+  - split; [tauto | intros K; inversion K].
+  - split; [tauto | intros K; inversion K].
+  - specialize (IH ys). simpl in IH. rewrite IH.
+    split; [intros [A B]; constructor; auto | intros K; inversion K; auto].
+Qed.
+
+Lemma FlagsFor_dict : forall xs ys, FlagsFor (ADict xs) (ADict ys) <-> Forall2kv FlagsFor xs ys.
+Proof.
+  induction xs as [|[k x] xs IH]; intros [|[k' y] ys]; simpl.
+  - split; [constructor | auto].
+  - split; [tauto | intros K; inversion K].
+  - split; [tauto | intros K; inversion K].
+  - specialize (IH ys). simpl in IH. rewrite IH.
+    split; [intros [A [B C]]; subst; constructor; auto | intros K; inversion K; subst; auto].
+Qed.
+
+Lemma pairs_flagsfor : forall ie m,
+    CoeffTree m ->
+    (exists ps, prefix_pairs ie m = Some ps /\ forallb flag_pair_ok ps = true) -> FlagsFor ie m.
+Proof.
+  induction ie using aval_ind'; intros m Hm [ps [E F]].
+  - destruct m; try (simpl in E; discriminate).
+    apply CoeffTree_list in Hm. destruct Hm as [_ Hm].
+    rewrite prefix_pairs_list in E. apply FlagsFor_list.
+    revert xs0 Hm ps E F. induction H as [|x l Hx Hl IH]; intros [|y ys] Hys ps E F; simpl in E; try discriminate.
+    + constructor.
+    + destruct (prefix_pairs x y) as [p|] eqn:Ep; [|discriminate].
+      destruct (zip_pairs prefix_pairs l ys) as [q|] eqn:Eq; [|discriminate].
+      inversion E; subst. rewrite forallb_app in F. apply andb_true_iff in F. destruct F as [Fp Fq].
+      inversion Hys as [|? ? Hy Hys']; subst.
+      constructor; [apply (Hx y Hy); exists p; auto | apply (IH ys Hys' q); auto].
+  - destruct m; try (simpl in E; discriminate).
+    apply CoeffTree_tuple in Hm. destruct Hm as [_ Hm].
+    rewrite prefix_pairs_tuple in E. apply FlagsFor_tuple.
+    revert xs0 Hm ps E F. induction H as [|x l Hx Hl IH]; intros [|y ys] Hys ps E F; simpl in E; try discriminate.
+    + constructor.
+    + destruct (prefix_pairs x y) as [p|] eqn:Ep; [|discriminate].
+      destruct (zip_pairs prefix_pairs l ys) as [q|] eqn:Eq; [|discriminate].
+      inversion E; subst. rewrite forallb_app in F. apply andb_true_iff in F. destruct F as [Fp Fq].
+      inversion Hys as [|? ? Hy Hys']; subst.
+      constructor; [apply (Hx y Hy); exists p; auto | apply (IH ys Hys' q); auto].
+  - destruct m; try (simpl in E; discriminate).
+    apply CoeffTree_dict in Hm. destruct Hm as [_ Hm].
+    rewrite prefix_pairs_dict in E. apply FlagsFor_dict.
+    revert kvs0 Hm ps E F. induction H as [|[k x] l Hx Hl IH]; intros [|[k' y] ys] Hys ps E F; simpl in E; try discriminate.
+    + constructor.
+    + destruct (Nat.eqb_spec k k'); [subst|discriminate].
+      destruct (prefix_pairs x y) as [p|] eqn:Ep; [|discriminate].
+      destruct (zip_pairs_kv prefix_pairs l ys) as [q|] eqn:Eq; [|discriminate].
+      inversion E; subst. rewrite forallb_app in F. apply andb_true_iff in F. destruct F as [Fp Fq].
+      inversion Hys as [|? ? Hy Hys']; subst. simpl in Hy, Hx.
+      constructor; [apply (Hx y Hy); exists p; auto | apply (IH ys Hys' q); auto].
+  - destruct H as [H|H].
+    + assert (E' : prefix_pairs ie m = Some [(ie, m)]) by (destruct ie; simpl in H; try discriminate; reflexivity).
+      rewrite E' in E. inversion E; subst. simpl in F. rewrite andb_true_r in F.
+      unfold flag_pair_ok in F. simpl in F.
+      destruct m as [s dt| | | | | | | | | | | | |]; try discriminate.
+      apply andb_true_iff in F. destruct F as [F1 F2]. apply orb_true_iff in F1.
+      rewrite !shape_eqb_eq in F1.
+      destruct ie as [s' []| | | | | | | | | | | | |]; simpl in H; try discriminate; simpl in F2; try discriminate;
+        simpl; simpl in F1; tauto.
+    + subst. destruct m; simpl in E; try discriminate. simpl in Hm. contradiction.
+Qed.
+
+Lemma flags_tree_dense_sound : forall ie mean,
+    CoeffTree mean -> flags_tree_dense ie mean = Accept -> FlagsFor ie mean.
+Proof.
+  intros ie mean Hm H. apply pairs_flagsfor; [exact Hm|]. apply flags_tree_dense_accept. exact H.
+Qed.
+
+Lemma wf_tcoeffs_coefftree : forall x, WfTcoeffs x -> CoeffTree x.
+Proof.
+  intros x H. unfold WfTcoeffs in H.
+  destruct x; simpl in H; try contradiction; destruct xs as [|c cs]; try contradiction; destruct H as [Hc Hs].
+  - apply CoeffTree_list. split; [discriminate|]. constructor; [exact Hc|].
+    induction Hs as [|y l Hy Hl IH]; constructor; [exact (SameShape_coefftree_r c y Hy) | exact IH].
+  - apply CoeffTree_tuple. split; [discriminate|]. constructor; [exact Hc|].
+    induction Hs as [|y l Hy Hl IH]; constructor; [exact (SameShape_coefftree_r c y Hy) | exact IH].
+Qed.
+
+(* dense / blockdiag: an accepted flag argument is well-formed *)
+Lemma std_dense_sound : forall f mean ie std,
+    f <> Isotropic -> WfTcoeffs mean -> tcoeffs_std f mean ie = Ok std -> WfFlags f mean ie.
+Proof.
+  intros f mean ie std Hf Hw H.
+  assert (Hd : std_dense mean ie = Ok std) by (destruct f; [exact H | congruence | exact H]).
+  unfold WfFlags. unfold std_dense in Hd.
+  assert (G : ie = APyBool \/ FlagsFor ie mean).
+  { destruct ie; try (right; apply flags_tree_dense_sound; [apply wf_tcoeffs_coefftree; exact Hw|];
+                      match type of Hd with (match ?m with _ => _ end) = _ => destruct m; try discriminate; reflexivity end).
+    left. reflexivity. }
+  destruct f; [exact G | congruence | exact G].
+Qed.
+
+(* ---- isotropic flags: one scalar per coefficient *)
+Lemma struct_self_false : forall c,
+    (forall cs, struct_eqb (AList (c :: cs)) c = false) /\
+    (forall cs, struct_eqb (ATuple (c :: cs)) c = false).
+Proof.
+  induction c using aval_ind'.
+  - split; [|intros; reflexivity]. intros cs. rewrite struct_list.
+    destruct xs as [|y ys]; [reflexivity|].
+    change (forall2b struct_eqb (AList (y :: ys) :: cs) (y :: ys))
+      with (struct_eqb (AList (y :: ys)) y && forall2b struct_eqb cs ys).
+    inversion H as [|? ? Hy _]; subst. destruct Hy as [Hy _]. rewrite (Hy ys). reflexivity.
+  - split; [intros; reflexivity|]. intros cs. rewrite struct_tuple.
+    destruct xs as [|y ys]; [reflexivity|].
+    change (forall2b struct_eqb (ATuple (y :: ys) :: cs) (y :: ys))
+      with (struct_eqb (ATuple (y :: ys)) y && forall2b struct_eqb cs ys).
+    inversion H as [|? ? Hy _]; subst. destruct Hy as [_ Hy]. rewrite (Hy ys). reflexivity.
+  - split; intros; reflexivity.
+  - destruct H as [H|H]; [|subst; split; intros; reflexivity].
+    destruct c; simpl in H; try discriminate; split; intros; reflexivity.
+Qed.
+
+Lemma d1_template_unfold : forall x0 v,
+    d1_template x0 v =
+    if struct_eqb v x0 then AArr [] DFloat else
+      match v with
+      | AList xs => AList (map (d1_template x0) xs)
+      | ATuple xs => ATuple (map (d1_template x0) xs)
+      | ADict kvs => ADict (map (fun kv => match kv with (k, x) => (k, d1_template x0 x) end) kvs)
+      | ANone => ANone
+      | _ => AArr [] DFloat
+      end.
+Proof. intros x0 v. destruct v; reflexivity. Qed.
+
+Definition scalars (n : nat) : list aval := repeat (AArr [] DFloat) n.
+
+Lemma template_of_coeffs : forall c l,
+    Forall (fun x => struct_eqb x c = true) l -> map (d1_template c) l = scalars (length l).
+Proof.
+  intros c l H. induction H as [|x l Hx Hl IH]; simpl; [reflexivity|].
+  rewrite d1_template_unfold, Hx, IH. reflexivity.
+Qed.
+
+Lemma wf_coeffs_struct : forall c cs,
+    CoeffTree c -> Forall (SameShape c) cs -> Forall (fun x => struct_eqb x c = true) (c :: cs).
+Proof.
+  intros c cs Hc Hs. constructor.
+  - apply sameshape_struct. apply SameShape_refl. exact Hc.
+  - induction Hs as [|y l Hy Hl IH]; constructor; [|exact IH].
+    apply sameshape_struct. apply SameShape_sym. exact Hy.
+Qed.
+
+Definition iso_pair_ok (ab : aval * aval) : bool :=
+  match np_shape (snd ab) with
+  | Some sb => shape_eqb (leaf_shape (fst ab)) sb
+  | None => false
+  end && match leaf_dtype (fst ab) with Some DBool => true | _ => false end.
+
+Lemma iso_flag_stages : forall ps bs ds,
+    mapM (fun ab : aval * aval =>
+            let (a, b) := ab in
+            match np_shape b with
+            | Some sb => Ok (shape_eqb (leaf_shape a) sb)
+            | None => Err OtherErr
+            end) ps = Ok bs ->
+    forallb (fun b => b) bs = true ->
+    mapM (fun ab : aval * aval =>
+            match leaf_dtype (fst ab) with Some d => Ok d | None => Err OtherErr end) ps = Ok ds ->
+    forallb is_bool_dtype ds = true ->
+    forallb iso_pair_ok ps = true.
+Proof.
+  induction ps as [|[a b] ps IH]; intros bs ds H1 H2 H3 H4; [reflexivity|].
+  simpl in H1, H3.
+  destruct (np_shape b) as [sb|] eqn:Eb; [|discriminate].
+  destruct (mapM _ ps) as [bs'|] eqn:E1 in H1; [|discriminate]. inversion H1; subst. clear H1.
+  destruct (leaf_dtype a) as [d|] eqn:Ed; [|discriminate].
+  destruct (mapM _ ps) as [ds'|] eqn:E3 in H3; [|discriminate]. inversion H3; subst. clear H3.
+  simpl in H2, H4. apply andb_true_iff in H2. destruct H2 as [H2a H2b].
+  apply andb_true_iff in H4. destruct H4 as [H4a H4b].
+  simpl. unfold iso_pair_ok at 1. simpl. rewrite Eb, H2a, Ed.
+  destruct d; simpl in H4a; try discriminate. simpl.
+  exact (IH bs' ds' E1 H2b E3 H4b).
+Qed.
+
+Lemma flags_tree_iso_accept : forall ie t,
+    flags_tree_iso ie t = Accept ->
+    exists ps, prefix_pairs ie t = Some ps /\ forallb iso_pair_ok ps = true.
+Proof.
+  intros ie t H. unfold flags_tree_iso in H.
+  destruct (prefix_pairs ie t) as [ps|]; [|discriminate].
+  exists ps. split; [reflexivity|].
+  match type of H with (match ?m with _ => _ end) = _ => destruct m as [bs|e] eqn:E1 end.
+  - destruct (forallb (fun b => b) bs) eqn:E2; simpl in H; [|discriminate].
+    match type of H with (match ?m with _ => _ end) = _ => destruct m as [ds|e] eqn:E3 end.
+    + destruct (forallb is_bool_dtype ds) eqn:E4; [|discriminate].
+      exact (iso_flag_stages ps bs ds E1 E2 E3 E4).
+    + subst e. apply mapM_err in E3. destruct E3 as [[a b] [_ K]].
+      simpl in K. destruct (leaf_dtype a); discriminate.
+  - subst e. apply mapM_err in E1. destruct E1 as [[a b] [_ K]].
+    destruct (np_shape b); discriminate.
+Qed.
+
+(* a flag tree zipped against n scalars: n scalar boolean flags *)
+Lemma zip_scalars_flags : forall fs n ps,
+    zip_pairs prefix_pairs fs (scalars n) = Some ps -> forallb iso_pair_ok ps = true ->
+    length fs = n /\ Forall ScalarFlag fs.
+Proof.
+  induction fs as [|f fs IH]; intros [|n] ps E F; simpl in E; try discriminate.
+  - split; [reflexivity | constructor].
+  - destruct (prefix_pairs f (AArr [] DFloat)) as [p|] eqn:Ep; [|discriminate].
+    fold (scalars n) in E.
+    destruct (zip_pairs prefix_pairs fs (scalars n)) as [q|] eqn:Eq; [|discriminate].
+    inversion E; subst. rewrite forallb_app in F. apply andb_true_iff in F. destruct F as [Fp Fq].
+    destruct (IH n q Eq Fq) as [L A]. split; [simpl; congruence|]. constructor; [|exact A].
+    destruct f as [s []| | | | | | | | | | | | |]; simpl in Ep; try discriminate;
+      try (destruct xs; discriminate); try (destruct kvs; discriminate);
+      inversion Ep; subst; simpl in Fp; unfold iso_pair_ok in Fp; simpl in Fp;
+        rewrite ?andb_true_r, ?andb_false_r in Fp; try discriminate;
+        unfold ScalarFlag; simpl; try (split; [exact I | reflexivity]).
+    split; [exact I|]. apply shape_eqb_eq in Fp. exact Fp.
+Qed.
+
+Lemma length_scalars : forall n, length (scalars n) = n.
+Proof. intros n. unfold scalars. apply repeat_length. Qed.
+
+Lemma from_mean_and_std_verify_std : forall f mean std,
+    from_mean_and_std f mean std = Accept -> verify std = Accept.
+Proof.
+  intros f mean std H. unfold from_mean_and_std in H.
+  destruct (verify mean); try discriminate. destruct (verify std); try discriminate. reflexivity.
+Qed.
+
+Lemma iso_flags_sound : forall mean ie std,
+    WfTcoeffs mean -> tcoeffs_std Isotropic mean ie = Ok std ->
+    from_mean_and_std Isotropic mean std = Accept -> WfFlags Isotropic mean ie.
+Proof.
+  intros mean ie std Hw Hs Hf.
+  pose proof (from_mean_and_std_verify_std _ _ _ Hf) as Hv.
+  unfold WfFlags. simpl in Hs. unfold std_iso in Hs.
+  unfold WfTcoeffs in Hw.
+  destruct mean as [| | | |xs|xs| | | | | | | |]; simpl in Hw; try contradiction;
+    destruct xs as [|c cs]; try contradiction; destruct Hw as [Hc Hcs]; simpl first_item in Hs.
+  - (* list of coefficients *)
+    pose proof (wf_coeffs_struct c cs Hc Hcs) as Hst.
+    cbv beta iota zeta in Hs. rewrite d1_template_unfold in Hs.
+    destruct (struct_self_false c) as [Sf _]. rewrite (Sf cs) in Hs.
+    rewrite (template_of_coeffs c (c :: cs) Hst) in Hs.
+    destruct ie as [| | | |fs|fs|kvs| | | | | | |];
+      try (left; reflexivity);
+      try (match type of Hs with (match ?m with _ => _ end) = _ => destruct m eqn:Ef; try discriminate end;
+           inversion Hs; subst; simpl in Hv; discriminate).
+    right.
+    match type of Hs with (match ?m with _ => _ end) = _ => destruct m eqn:Ef; try discriminate end.
+    destruct (flags_tree_iso_accept _ _ Ef) as [ps [Ep Fp]].
+    rewrite prefix_pairs_list in Ep.
+    destruct (zip_scalars_flags fs _ ps Ep Fp) as [L A].
+    simpl. split; [rewrite L; reflexivity | exact A].
+  - (* tuple of coefficients *)
+    pose proof (wf_coeffs_struct c cs Hc Hcs) as Hst.
+    cbv beta iota zeta in Hs. rewrite d1_template_unfold in Hs.
+    destruct (struct_self_false c) as [_ Sf]. rewrite (Sf cs) in Hs.
+    rewrite (template_of_coeffs c (c :: cs) Hst) in Hs.
+    destruct ie as [| | | |fs|fs|kvs| | | | | | |];
+      try (left; reflexivity);
+      try (match type of Hs with (match ?m with _ => _ end) = _ => destruct m eqn:Ef; try discriminate end;
+           inversion Hs; subst; simpl in Hv; discriminate).
+    right.
+    match type of Hs with (match ?m with _ => _ end) = _ => destruct m eqn:Ef; try discriminate end.
+    destruct (flags_tree_iso_accept _ _ Ef) as [ps [Ep Fp]].
+    rewrite prefix_pairs_tuple in Ep.
+    destruct (zip_scalars_flags fs _ ps Ep Fp) as [L A].
+    simpl. split; [rewrite L; reflexivity | exact A].
+Qed.
+
+(* ------------------------------------------------------------------------
+   T (ALL inputs): soundness of prior_wiener_integrated for the three factorisations.
+   On coefficient values without None / empty containers: whatever is accepted is
+   well-formed in EVERY field -- malformed argument sets raise. *)
+Theorem prior_iwp_accepts_only_wellformed :
+  forall f tc ie sc, Regular tc -> prior_iwp f tc ie sc = Accept -> WfPriorIwp f tc ie sc.
+Proof.
+  intros f tc ie sc Hr H.
+  destruct (prior_iwp_accepts_only_wellformed_coefficients_and_scales f tc ie sc Hr H) as [Hw Hsc].
+  split; [exact Hw|]. split; [|exact Hsc].
+  unfold prior_iwp in H.
+  destruct (tcoeffs_std f tc ie) as [std|e] eqn:Es;
+    [|exfalso; apply (tcoeffs_std_never_errs_with_accept f tc ie); congruence].
+  destruct f.
+  - apply (std_dense_sound Dense tc ie std); [discriminate | exact Hw | exact Es].
+  - unfold prior_iwp_diffuse in H.
+    destruct (from_mean_and_std Isotropic tc std) eqn:Ef; try discriminate.
+    exact (iso_flags_sound tc ie std Hw Es Ef).
+  - apply (std_dense_sound BlockDiag tc ie std); [discriminate | exact Hw | exact Es].
+Qed.
+
+Theorem prior_exp_accepts_only_wellformed :
+  forall f ode tc ie sc, Regular tc -> prior_exp f ode tc ie sc = Accept ->
+    f = Dense /\ (exists k, ode = AJetOdeAuto k /\ py_len tc = Some k) /\ WfPriorIwp Dense tc ie sc.
+Proof.
+  intros f ode tc ie sc Hr H.
+  destruct (prior_exp_accepts_only_wellformed_coefficients_and_matching_order f ode tc ie sc Hr H) as [Hf [Hw Hk]].
+  split; [exact Hf|]. split; [exact Hk|]. subst f.
+  apply prior_iwp_accepts_only_wellformed; [exact Hr|].
+  unfold prior_exp in H. unfold prior_iwp.
+  destruct (tcoeffs_std Dense tc ie) as [std|e] eqn:Es;
+    [|exfalso; apply (tcoeffs_std_never_errs_with_accept Dense tc ie); congruence].
+  destruct (ode_order ode); [|discriminate]. destruct (py_len tc); [|discriminate].
+  destruct (negb (n =? n0)); [discriminate|].
+  destruct (prior_iwp_diffuse Dense tc std sc); try discriminate. reflexivity.
+Qed.
